@@ -13,6 +13,7 @@ REGISTRY = {
     'C04': ('checks.layout', 'check_c04', 'model_checking'),
     'C05': ('checks.layout', 'check_c05', 'model_checking'),
     'C06': ('checks.layout', 'check_c06', 'model_checking'),
+    'C15': ('checks.registry', 'check_c15', 'model_checking'),
 }
 
 
